@@ -139,7 +139,9 @@ Record ltext (u : str) : Prop := mkLtext {
   lt_single : (2 <= length u)%nat \/ inert (hd 0 u) = true;
   lt_abs : l_abs u;
   lt_bal : count_c c_lpar u = count_c c_rpar u;
-  lt_nocolon : nocolon u }.
+  lt_nocolon : nocolon u;
+  lt_sqbal : sqbal u;
+  lt_plain : Forall (fun c => fileplain c = true) u }.
 
 Lemma ltext_neutral u : ltext u -> neutral u.
 Proof.
@@ -174,6 +176,8 @@ Proof.
   - now apply gtext_l_abs.
   - apply (g_bal s H).
   - eapply Forall_impl; [|apply (g_chars s H)]. intros c Hc. now apply tchar_nocolon.
+  - now apply gtext_sqbal.
+  - apply tchars_fileplain. apply (g_chars s H).
 Qed.
 
 Lemma gtext_nosp s : gtext s -> Forall (fun c => nosp c = true) s.
@@ -307,6 +311,10 @@ Proof.
   - unfold unify_text. rewrite !count_c_app. rewrite (lt_bal _ Ll), (lt_bal _ Lr). reflexivity.
   - unfold unify_text, nocolon. apply Forall_app. split; [apply (lt_nocolon _ Ll)|].
     apply Forall_app. split; [repeat constructor|apply (lt_nocolon _ Lr)].
+  - unfold unify_text. apply sqbal_app; [apply (lt_sqbal _ Ll)|].
+    apply sqbal_app; [reflexivity|apply (lt_sqbal _ Lr)].
+  - unfold unify_text. apply Forall_app. split; [apply (lt_plain _ Ll)|].
+    apply Forall_app. split; [repeat constructor|apply (lt_plain _ Lr)].
 Qed.
 
 Theorem parse_subgoal_unify_text : forall fuel l r tl tr,
@@ -366,6 +374,12 @@ Proof.
   - unfold nocolon. apply Forall_app. split.
     + eapply Forall_impl; [|exact Hall]. intros c Hc. apply tchar_nocolon. now apply wchar_tchar.
     + constructor; [reflexivity|]. apply Forall_app. split; [apply (lt_nocolon _ Lu)|repeat constructor].
+  - apply sqbal_app; [now apply word_sqbal|].
+    change (c_lpar :: u ++ [c_rpar]) with ([c_lpar] ++ u ++ [c_rpar]).
+    apply sqbal_app; [reflexivity|]. apply sqbal_app; [apply (lt_sqbal _ Lu)|reflexivity].
+  - apply Forall_app. split.
+    + apply tchars_fileplain. eapply Forall_impl; [|exact Hall]. intros c Hc. now apply wchar_tchar.
+    + constructor; [reflexivity|]. apply Forall_app. split; [apply (lt_plain _ Lu)|repeat constructor].
 Qed.
 
 Lemma nosp_wrap name u : simple_atom name = true -> Forall (fun c => nosp c = true) u ->
@@ -432,6 +446,13 @@ Proof.
     rewrite !K by (reflexivity || discriminate). reflexivity.
   - eapply Forall_impl; [|exact Hall]. intros c [Hc| ->]; [|reflexivity].
     apply tchar_nocolon. now apply wchar_tchar.
+  - assert (K : forall x, wchar x = false -> x <> 33 -> count_c x u = 0).
+    { intros x Hx Hx'. clear -Hall Hx Hx'. induction Hall as [|c u Hc _ IH]; [reflexivity|].
+      cbn [count_c]. rewrite IH. destruct (c =? x) eqn:E; [|reflexivity].
+      apply N.eqb_eq in E. subst c. destruct Hc as [Hc|Hc]; congruence. }
+    unfold sqbal. rewrite !K by (reflexivity || discriminate). reflexivity.
+  - eapply Forall_impl; [|exact Hall]. intros c [Hc| ->]; [|reflexivity].
+    apply tchar_fileplain. now apply wchar_tchar.
 Qed.
 
 Lemma nosp_const u : Forall (fun c => wchar c = true \/ c = 33) u -> Forall (fun c => nosp c = true) u.
